@@ -301,7 +301,12 @@ def check_C13(tier, seed):
         v.machinery("TagTxn model check failed")
     v.drift += cmpres["n_differ"] + cmpres["n_no_model_site"]
     v.coverage["tag_transaction_model"] = cmpres
-    v.coverage["checker_cmd"] += " ; tlc TagTxn (roll-back transaction model, outcomes per fault site compared)"
+    dres = txncheck.compare_delete(crashfault.run(tier, ("fault",), only="delete:"))
+    if not dres["tlc_ok"]:
+        v.machinery("DeleteTxn model check failed")
+    v.drift += dres["n_differ"] + dres["n_no_model_site"]
+    v.coverage["delete_transaction_model"] = dres
+    v.coverage["checker_cmd"] += " ; tlc TagTxn, DeleteTxn (transaction models under one fault, outcomes per fault site compared)"
     return v.finish()
 
 
